@@ -86,6 +86,16 @@ TEXT = {
                    "form itself (same streams with the other sessions' traffic removed) is NOT a Lean theorem here: it is measured on the real server by re-running histories without the outsiders.",
              note=_std_note + " Reuse of a session id after the earlier session ended is covered through C07_fresh_session / C10 (uuid never reused) and by the cross-session monitors.",
              technique=_tech + " + noninterference re-run on the real server"),
+ 'C08': dict(level="PARTIAL: the life cycle of a connection handler is modelled (Model/Life.lean: main loop, sender and receiver goroutines, the disconnect-cause channel, the send queue, the scheduler "
+                   "queue) and proved for every schedule of client behaviour and goroutine interleaving: C08_once (handleDisconnect runs at most once, exactly once when Handle returns, both goroutines gone), "
+                   "C08_never_stuck / C08_cause_taken (reporting a cause never blocks the main loop, a pending cause can always be taken), C08_send_progress (a full send queue can always be relieved by the "
+                   "sender goroutine), C08_shutdown_progress + C08_shutdown_decreases (after a cause is taken some goroutine can always move without the client and every move decreases a measure: the shutdown "
+                   "ends with Handle returned); C08_old_code_wedges is the kernel-checked witness of finding F6 on the original blocking report. The model is tied to handler.go by regenerated facts "
+                   "(capacities, disconnect is a non-blocking send, skeletons and defers) and by go/cmd/wire. NOT proved, measured by go/cmd/wire on the real server over real sockets: that no input "
+                   "panics a handler (every message type with fields absent / non-finite / at bounds, garbage frames), process survival, goroutine and gauge end state, witnesses in the same and in "
+                   "another session served throughout, idle timeout, stalls. The OS, net/http and memory are outside the model.",
+             note=_std_note + " Timing-dependent: the wire scenarios use generous limits (seconds) relative to a 400 ms idle timeout.",
+             technique=_tech + " + wire-level scenarios on the real server (go/cmd/wire)"),
  'C11': dict(level="C11_order: for every interleaving of receives, frame ticks and consumptions on a connection's scheduler (the model of hagall-common's coalescing map + FIFO, "
                    "with the main loop free to take any item of a flushed group), the pose updates of an entity consumed so far followed by those in flight are a subsequence, in order, "
                    "of the updates received, and their last element is the latest received; C11_latest_arrives: once nothing is in flight the last consumed is the last received; "
@@ -108,9 +118,6 @@ TEXT = {
 _na = ("Lean proof applies to the sequential part of this property and a model exists, but the property theorems were not completed, "
        "so the property is not claimed rather than decided by a weaker technique; see DESIGN.md section 0.3. ")
 NA = {
- 'C08': "Process-level robustness (server keeps running, handler returns, goroutines end, gauge restored, idle timeout) lives in the runtime: it needs a wire-level harness and a "
-        "model of the handler's goroutines and channels (Layer L), neither of which is built. Panics and wedges found on the way (pose without pose, dagaz requests) were fixed in /repo; "
-        "see DESIGN.md section 0.4.",
  'C09': "Data races and deadlocks exist only in schedules; a lock-granularity scheduler over the real code and -race runs are not built. Lock, field and channel facts are extracted "
         "but no theorem or check decides them.",
 }
